@@ -451,7 +451,7 @@ func RunC18(tier string) int {
 		for i := range docs {
 			margs[i] = docs[i]
 		}
-		mapOrdBudget = 150 * time.Second
+		mapOrdBudget = 240 * time.Second
 		if thorough {
 			mapOrdBudget = 20 * time.Minute
 		}
